@@ -4,7 +4,7 @@ import numpy as np
 from harness import common as C
 from harness import zoo as Z
 
-ANCHORS = ["T7unseen", "T4", "T7mic", "T5rot"]
+ANCHORS = ["T7unseen", "T4", "T7mic", "T5rot", "T7chain"]
 MODELS = ["Mic", "MicCase", "CrossCase"]
 RULE = ("fitted transform-capable models (EOF, ComplexEOF, SparsePCA, POP, their rotators, CPCCA family, their rotators, multi.CCA) x new data with "
         "1..N samples, sample coordinates disjoint from / overlapping / equal to the training ones, one or two sample dimensions, a sample "
@@ -262,6 +262,25 @@ def run_cross(ctx, rng, N):
         check_transform(ctx, "C05:%s:X" % name, "%s field X/%s" % (name, mode), lambda d: m.transform(X=d), nx, "time", replay)
         check_transform(ctx, "C05:%s:Y" % name, "%s field Y/%s" % (name, mode), lambda d: m.transform(Y=d), ny, "time", replay)
         check_transform(ctx, "C05:%s:Y:normalized" % name, "%s field Y/%s/normalized" % (name, mode), lambda d: m.transform(Y=d, normalized=True), ny, "time", replay)
+        # both fields in ONE call, the second field stamped with other sample labels and (every other time) one field with an entirely
+        # missing sample: each field's scores are that field's own - its labels, and the values of transforming it alone
+        try:
+            ny2 = ny.assign_coords(time=ny.time.values + 1000)
+            nx2 = nx
+            if i % 2 == 1 and n_new >= 2:
+                nx2 = nx.copy()
+                nx2.values[int(rng.integers(0, n_new))] = np.nan
+            tx, ty = m.transform(X=nx2, Y=ny2)
+            ax, ay = m.transform(X=nx2), m.transform(Y=ny2)
+            for fld, t, a in (("X", tx, ax), ("Y", ty, ay)):
+                if list(t.time.values) != list(a.time.values) or not Z.same(t.transpose(*a.dims).values, a.values, 1e-9):
+                    ctx.violation("C05:%s:joint-call" % name, "%s: transform(X=.., Y=..) in one call gives field %s other scores or labels (%r) than transforming that field "
+                                  "alone (%r); the fields carry different sample labels%s" % (name, fld, list(t.time.values)[:4], list(a.time.values)[:4],
+                                                                                             ", X has an entirely missing sample" if nx2 is not nx else ""),
+                                  dict(replay, joint=True, missing_sample=nx2 is not nx))
+                    break
+        except Exception as e:
+            ctx.violation("C05:%s:joint-call:error:%s" % (name, C.errkind(e)), "%s: transform(X=.., Y=..) with differently labelled fields raised %r" % (name, e), replay)
         for power in (1, 2):
             try:
                 rot = Z.rotator_for(name)(n_modes=2, power=power, max_iter=3000, rtol=1e-10)
